@@ -225,8 +225,14 @@ def check(ctx):
     ctx.inst('R9', run, 'downlink-after-ack', bool(inq) and fact_key('%s.ack is False' % ackv, False) in g.fact_keys_at(inq[0][0]) and fact_key('%s is None' % ackv, False) in g.fact_keys_at(inq[0][0]),
              'downlink data is taken only from an acknowledged transmission')
     ctx.inst('R9', run, 'dequeue-into-next-frame', norm(deq[0][0].ast.targets[0]) == 'outPacket' if isinstance(deq[0][0].ast, ast.Assign) else False, 'the dequeued packet becomes the next frame')
-    app = sorted([(n.line, norm(c.args[0])) for n, c in g.find(lambda q: method_call(q, 'append') and norm(q.func.value) == frame) if n.id in body])
-    ok = len(app) >= 3 and app[0][1] == 'outPacket.header' and {a[1] for a in app[1:]} == {'X', 'ord(X)', '255'}
+    apn = [(n, norm(c.args[0])) for n, c in g.find(lambda q: method_call(q, 'append') and norm(q.func.value) == frame) if n.id in body]
+    app = sorted((n.line, t) for n, t in apn)
+    hdr = [n for n, t in apn if t == 'outPacket.header']
+    dat = [n for n, t in apn if t in ('X', 'ord(X)')]
+    nul = [n for n, t in apn if t == '255']
+    have, none = fact_key('outPacket', True), fact_key('outPacket', False)
+    ok = len(hdr) == 1 and len(dat) >= 1 and len(nul) == 1 and len(apn) == len(hdr) + len(dat) + len(nul) and have in g.fact_keys_at(hdr[0]) and \
+        all(g.dominates(hdr[0], d) and have in g.fact_keys_at(d) for d in dat) and none in g.fact_keys_at(nul[0])
     ctx.inst('R10', run, 'frame=header+data', ok, 'frame = header byte, then each data byte in order (or the null packet 0xFF); appends %s' % app)
     lp = [n for n in g.nodes if n.kind == 'for' and n.id in body]
     ctx.inst('R10', run, 'data-in-order', len(lp) == 1 and norm(lp[0].ast.iter) == 'outPacket.data', 'data bytes are appended in iteration order')
